@@ -21,10 +21,10 @@ from symtorch_probe import Tensor, TensorDict, is_sym, _pybool, _pyfloat, _pyint
 class XR:
     """value in R ∪ {+inf}: pinf flag (bool or z3 Bool) and finite value"""
 
-    __slots__ = ("pinf", "v")
+    __slots__ = ("pinf", "v", "ninf")
 
-    def __init__(self, pinf, v):
-        self.pinf, self.v = pinf, v
+    def __init__(self, pinf, v, ninf=False):
+        self.pinf, self.v, self.ninf = pinf, v, ninf
 
 
 def _isxr(x):
@@ -35,7 +35,7 @@ def _xr(x):
     if isinstance(x, XR):
         return x
     if isinstance(x, _pyfloat) and math.isinf(x):
-        return XR(True, 0.0)  # probe shortcut: the sign of the infinity is not tracked
+        return XR(x > 0, 0.0, x < 0)
     return XR(False, x)
 
 
@@ -45,7 +45,9 @@ _o = {k: getattr(st, k) for k in ("s_lt", "s_le", "s_gt", "s_ge", "s_eq", "s_ne"
 def x_lt(a, b):
     if _isxr(a) or _isxr(b):
         a, b = _xr(a), _xr(b)
-        return st.s_and(st.s_not(a.pinf), st.s_or(b.pinf, _o["s_lt"](a.v, b.v)))
+        fa = st.s_and(st.s_not(a.pinf), st.s_not(a.ninf))
+        fb = st.s_and(st.s_not(b.pinf), st.s_not(b.ninf))
+        return st.s_or(st.s_and(a.ninf, st.s_not(b.ninf)), st.s_or(st.s_and(fa, b.pinf), st.s_and(st.s_and(fa, fb), _o["s_lt"](a.v, b.v))))
     return _o["s_lt"](a, b)
 
 
@@ -66,7 +68,9 @@ def x_ge(a, b):
 def x_eq(a, b):
     if _isxr(a) or _isxr(b):
         a, b = _xr(a), _xr(b)
-        return st.s_or(st.s_and(a.pinf, b.pinf), st.s_and(st.s_and(st.s_not(a.pinf), st.s_not(b.pinf)), _o["s_eq"](a.v, b.v)))
+        fa = st.s_and(st.s_not(a.pinf), st.s_not(a.ninf))
+        fb = st.s_and(st.s_not(b.pinf), st.s_not(b.ninf))
+        return st.s_or(st.s_and(a.pinf, b.pinf), st.s_or(st.s_and(a.ninf, b.ninf), st.s_and(st.s_and(fa, fb), _o["s_eq"](a.v, b.v))))
     return _o["s_eq"](a, b)
 
 
@@ -75,7 +79,7 @@ def x_where(c, a, b):
         if not is_sym(c):
             return a if c else b
         a, b = _xr(a), _xr(b)
-        return XR(_o["s_where"](c, a.pinf, b.pinf), _o["s_where"](c, a.v, b.v))
+        return XR(_o["s_where"](c, a.pinf, b.pinf), _o["s_where"](c, a.v, b.v), _o["s_where"](c, a.ninf, b.ninf))
     return _o["s_where"](c, a, b)
 
 
@@ -90,7 +94,7 @@ def x_max(a, b):
 def x_add(a, b):
     if _isxr(a) or _isxr(b):
         a, b = _xr(a), _xr(b)
-        return XR(st.s_or(a.pinf, b.pinf), _o["s_add"](a.v, b.v))
+        return XR(st.s_or(a.pinf, b.pinf), _o["s_add"](a.v, b.v), st.s_or(a.ninf, b.ninf))
     return _o["s_add"](a, b)
 
 
@@ -99,12 +103,25 @@ def x_sub(a, b):
     # already excluded the infinite case through the env's own assert); the framework needs +-inf
     if isinstance(a, XR) or isinstance(b, XR):
         a, b = _xr(a), _xr(b)
-        return XR(st.s_or(a.pinf, b.pinf), _o["s_sub"](a.v, b.v))
+        return XR(st.s_or(a.pinf, b.ninf), _o["s_sub"](a.v, b.v), st.s_or(a.ninf, b.pinf))
     return _o["s_sub"](a, b)
 
 
+_odiv = st.s_div
+
+
+def x_div(a, b):
+    if isinstance(a, XR):  # division by a positive finite number keeps the flags
+        return XR(a.pinf, _odiv(a.v, b), a.ninf)
+    return _odiv(a, b)
+
+
+st.s_div = x_div
+st.U_DIV = np.frompyfunc(x_div, 2, 1)
+
+
 def x_isinf(a):
-    return _xr(a).pinf if _isxr(a) else False
+    return st.s_or(_xr(a).pinf, _xr(a).ninf) if _isxr(a) else False
 
 
 st.s_lt, st.s_le, st.s_gt, st.s_ge, st.s_eq, st.s_where, st.s_min, st.s_max, st.s_add = x_lt, x_le, x_gt, x_ge, x_eq, x_where, x_min, x_max, x_add
